@@ -22,12 +22,14 @@ import (
 	mrand "math/rand"
 	"os"
 	"os/exec"
+	"os/signal"
 	"path/filepath"
 	"sort"
 	"strconv"
 	"strings"
 	"sync"
 	"sync/atomic"
+	"syscall"
 	"testing"
 	"time"
 )
@@ -715,6 +717,18 @@ func TestVerifC10Child(t *testing.T) {
 		return
 	}
 	p := strings.Split(spec, "\x1f") // dir, key, writer, size1,size2… joined by U+001F
+	if p[2] == "failwrite" {
+		// a write that FAILS part-way (file size limit, EFBIG): Store must report the error and leave
+		// the previous value in place
+		limit, _ := strconv.Atoi(p[3])
+		signal.Ignore(syscall.SIGXFSZ)
+		syscall.Setrlimit(syscall.RLIMIT_FSIZE, &syscall.Rlimit{Cur: uint64(limit), Max: uint64(limit)})
+		st := &FileStorage{Path: p[0]}
+		if err := st.Store(context.Background(), p[1], c10MkValue(9, 1, 8*limit)); err != nil {
+			os.Exit(0) // as it should be
+		}
+		os.Exit(4) // the write did not fail: the rig does not work here
+	}
 	w, _ := strconv.Atoi(p[2])
 	var sizes []int
 	for _, s := range strings.Split(p[3], ",") {
@@ -728,6 +742,41 @@ func TestVerifC10Child(t *testing.T) {
 			fmt.Fprintln(os.Stderr, "child store:", err)
 			os.Exit(3)
 		}
+	}
+}
+
+// (d) a write that fails part-way leaves the previous value (a child process with a file size limit)
+func c10PartD(t *testing.T, o *vOut, rng *mrand.Rand, root string) {
+	ctx := context.Background()
+	for round := 0; round < 6; round++ {
+		dir := filepath.Join(root, fmt.Sprintf("d%d", round))
+		os.MkdirAll(dir, 0o700)
+		key := "failwrite/" + c10Names[rng.Intn(len(c10Names))] + "/value.bin"
+		st := &FileStorage{Path: dir}
+		old := c10MkValue(0, 0, 100+rng.Intn(300))
+		if round%3 != 2 {
+			st.Store(ctx, key, old)
+		} else {
+			old = nil // nothing there before: nothing (no fragment) afterwards
+		}
+		limit := []int{512, 4096, 20000}[round%3]
+		cmd := exec.Command(os.Args[0], "-test.run", "^TestVerifC10Child$", "-test.count=1")
+		cmd.Env = append(os.Environ(), "VERIF_C10_CHILD="+strings.Join([]string{dir, key, "failwrite", strconv.Itoa(limit)}, "\x1f"))
+		err := cmd.Run()
+		if ee, ok := err.(*exec.ExitError); ok && ee.ExitCode() == 4 {
+			o.Stat("failwrite_rig_not_effective", 1) // no EFBIG on this system: nothing to judge
+			os.RemoveAll(dir)
+			continue
+		}
+		b, lerr := st.Load(ctx, key)
+		switch {
+		case old == nil && lerr == nil:
+			o.Mon("C10 failwrite fragment-stored-by-failed-write", map[string]any{"round": round, "bytes": len(b), "limit": limit})
+		case old != nil && (lerr != nil || !bytes.Equal(b, old)):
+			o.Mon("C10 failwrite previous-value-lost-by-failed-write", map[string]any{"round": round, "bytes": len(b), "limit": limit, "err": fmt.Sprint(lerr)})
+		}
+		o.Stat("failwrite_rounds_checked", 1)
+		os.RemoveAll(dir)
 	}
 }
 
@@ -817,6 +866,7 @@ func TestVerifC10(t *testing.T) {
 	t1 := time.Now()
 	c10PartB(t, o, rng, root)
 	t2 := time.Now()
+	c10PartD(t, o, rng, root)
 	if vThorough() {
 		c10PartC(t, o, rng, root)
 	}
